@@ -19,8 +19,8 @@ for set in ${1:-a b c d e}; do
     git -C /repo worktree add --detach "$W" "$base" >/dev/null 2>&1
     if (cd $W && git apply /verif/$d >/dev/null 2>&1) && (cd $W && go build ./... >/dev/null 2>&1); then
       # compare without the function component of the key (a refactoring may rename the function a base defect is in)
-      sed -E 's#^([A-Z0-9]+)/[^/]+/#\1/*/#; s/ \#[0-9]+$//' /tmp/vref-$$-base.txt | sort -u > /tmp/vref-$$-basen.txt
-      out=$(alarms "$W" | while IFS= read -r l; do n=$(printf '%s\n' "$l" | sed -E 's#^([A-Z0-9]+)/[^/]+/#\1/*/#; s/ \#[0-9]+$//'); grep -qxF -- "$n" /tmp/vref-$$-basen.txt || printf '%s\n' "$l"; done)
+      sed -E 's#^([A-Z0-9]+)/.*/([^/]*)$#\1/*/\2#; s/ \#[0-9]+$//' /tmp/vref-$$-base.txt | sort -u > /tmp/vref-$$-basen.txt
+      out=$(alarms "$W" | while IFS= read -r l; do n=$(printf '%s\n' "$l" | sed -E 's#^([A-Z0-9]+)/.*/([^/]*)$#\1/*/\2#; s/ \#[0-9]+$//'); grep -qxF -- "$n" /tmp/vref-$$-basen.txt || printf '%s\n' "$l"; done)
       if [ -z "$out" ]; then echo "$n: clean"; else echo "$n: FALSE ALARMS"; echo "$out" | cut -c1-260 | sed 's/^/    /'; fi
     else
       echo "$n: does not apply/build (skipped)"
